@@ -406,7 +406,12 @@ class Checker(CommandMixin):
         cm = self.conns.get(ev.conn)
         if ev.notes.get("noop") or cm is None:
             return
-        if how in ("abrupt", "clean"):
+        if how == "closing":
+            # the close handshake is done: nothing more can be delivered to the connection, but
+            # until its connectionLost arrives the server rightly counts it as a subscriber
+            # (sweeps keep its mailbox, the status row counts it)
+            cm.lingering = True
+        elif how in ("abrupt", "clean", "finish"):
             self._conn_dead(ev.conn, ev.wall)
         elif how == "stall":
             cm.stalled = True
